@@ -14,10 +14,71 @@ JAR = "/opt/veriftools/tla/tla2tools.jar"
 
 # mode "graph": complete state graph; "sim": simulation traces. consts: TLC cfg text of the CONSTANT section and the same
 # constants as Coq values for the model (the shipped cfg's values where one is shipped; see notes/C02.md)
+def expand_states(sysd, cfg_consts, states):
+    """TLC's complete successor sets of the given states (TLC's own state text): one model-checking run whose initial
+    states are exactly those states and whose exploration stops after two levels (CONSTRAINT TLCGet("level") < 3: states failing a CONSTRAINT are left out of the graph, so the successors must still satisfy it).
+    -> (nodes, init ids, edges) as parse_dot, or error"""
+    tla = os.path.join(vlib.REPO, sysd["tla"])
+    src = open(tla, "rb").read()
+    key = G.sha(src, cfg_consts, "expand-level3", "\n".join(states))
+    d = _cache_dir(key)
+    if not os.path.exists(os.path.join(d, "done")):
+        shutil.rmtree(d, ignore_errors=True)
+        os.makedirs(d)
+        mod = re.search(r"-{4,}\s*MODULE\s+(\w+)", src.decode(errors="replace")).group(1)
+        shutil.copy(tla, os.path.join(d, mod + ".tla"))
+        for f in os.listdir(os.path.dirname(tla)):
+            if f.endswith(".tla") and not os.path.exists(os.path.join(d, f)):
+                shutil.copy(os.path.join(os.path.dirname(tla), f), os.path.join(d, f))
+        body = "---- MODULE Expand ----\nEXTENDS %s\nInitS ==\n%s\nOneStep == TLCGet(\"level\") < 3\n====\n" % (
+            mod, "\n".join("  \\/ (%s)" % st.strip().replace("\n", "\n      ") for st in states))
+        open(os.path.join(d, "Expand.tla"), "w").write(body)
+        open(os.path.join(d, "mc.cfg"), "w").write("CONSTANT defaultInitValue = defaultInitValue\n" + cfg_consts + "\nINIT InitS\nNEXT Next\nCONSTRAINT OneStep\n")
+        cmd = ["java", "-XX:+UseParallelGC", "-Xmx4g", "-cp", JAR, "tlc2.TLC", "-deadlock", "-workers", "2", "-config", "mc.cfg",
+               "-dump", "dot,actionlabels", "graph.dot", "Expand.tla"]
+        rc, out, err = vlib.sh(cmd, cwd=d, timeout=600)
+        if rc != 0 or not os.path.exists(os.path.join(d, "graph.dot")):
+            shutil.rmtree(d, ignore_errors=True)
+            return None, "TLC one-step expansion failed: " + (out + err)[-800:]
+        open(os.path.join(d, "done"), "w").write("ok")
+    return parse_dot(os.path.join(d, "graph.dot")), None
+
+
+def _c(**kw):
+    """constants given once: TLC cfg text and Coq values"""
+    cfg, consts = [], []
+    for k, v in kw.items():
+        if isinstance(v, bool):
+            cfg.append("CONSTANT %s = %s" % (k, "TRUE" if v else "FALSE")); consts.append((k, "VBool true" if v else "VBool false"))
+        elif isinstance(v, int):
+            cfg.append("CONSTANT %s = %d" % (k, v)); consts.append((k, "VNum (%d)" % v))
+        elif isinstance(v, (set, frozenset, list)):
+            xs = sorted(v)
+            cfg.append("CONSTANT %s = {%s}" % (k, ", ".join(json.dumps(x) if isinstance(x, str) else str(x) for x in xs)))
+            consts.append((k, "VSet (set_of_list [%s])" % "; ".join(("VStr " + json.dumps(x)) if isinstance(x, str) else "VNum (%d)" % x for x in xs)))
+        else:
+            raise ValueError(k)
+    return {"cfg": "\n".join(cfg), "consts": consts}
+
+
 TLC_SYSTEMS = {
-    "locksvc": {"mode": "graph", "cfg": "CONSTANT NumClients = 5", "consts": [("NumClients", "VNum 5")], "shipped": "systems/locksvc/locksvc.cfg"},
-    "dqueue": {"mode": "graph", "cfg": "CONSTANT BUFFER_SIZE = 3\nCONSTANT NUM_CONSUMERS = 3\nCONSTANT PRODUCER = 0",
-               "consts": [("BUFFER_SIZE", "VNum 3"), ("NUM_CONSUMERS", "VNum 3"), ("PRODUCER", "VNum 0")], "shipped": "systems/dqueue/dqueue.cfg"},
+    # shipped constants (systems/<s>/<s>.cfg); graph = complete state graph
+    "locksvc": dict(_c(NumClients=5), mode="graph", shipped="systems/locksvc/locksvc.cfg"),
+    "dqueue": dict(_c(BUFFER_SIZE=3, NUM_CONSUMERS=3, PRODUCER=0), mode="graph", shipped="systems/dqueue/dqueue.cfg"),
+    "pbkvs": dict(_c(NUM_REPLICAS=3, NUM_CLIENTS=2, DEBUG=False, EXPLORE_FAIL=True), mode="sim", shipped="systems/pbkvs/pbkvs.cfg (without its CONSTRAINT)"),
+    "raftkvs": dict(_c(ExploreFail=True, Debug=False, NumServers=3, NumClients=1, BufferSize=3, MaxTerm=3, MaxCommitIndex=2, MaxNodeFail=1,
+                       LogConcat=2, LogPop=1, LeaderTimeoutReset=True, NumRequests=1, AllStrings=["s1", "s2", "s3"]),
+                    mode="sim", shipped="systems/raftkvs/raftkvs.cfg (without its CONSTRAINT)"),
+    # no cfg shipped (or the shipped one does not evaluate): small constants chosen here
+    "loadbalancer": dict(_c(BUFFER_SIZE=1, NUM_CLIENTS=1, NUM_SERVERS=2, LoadBalancerId=0, GET_PAGE=1, WEB_PAGE=99), mode="graph"),
+    "shcounter": dict(_c(NUM_NODES=3), mode="graph"),
+    "gcounter": dict(_c(NUM_NODES=2, BENCH_NUM_ROUNDS=1), mode="graph"),
+    "shopcart": dict(_c(NumNodes=2, BenchNumRounds=1, ElemSet=[0, 1, 2, 3]), mode="graph",
+                     note="the shipped shopcart.cfg (ElemSet <- BenchElemSet, a set of pairs) makes TLC fail on the shipped spec: add() indexes addMap with the integer GetVal(self, r)"),
+    "proxy": dict(_c(NUM_SERVERS=2, NUM_CLIENTS=1, EXPLORE_FAIL=True, CLIENT_RUN=True), mode="sim"),
+    "replicatedkv": dict(_c(BUFFER_SIZE=1, NUM_REPLICAS=1, NUM_CLIENTS=1, DISCONNECT_MSG=1, GET_MSG=2, PUT_MSG=3, NULL_MSG=4, GET_RESPONSE=5,
+                            PUT_RESPONSE=6, NULL=0, GET_KEY=10, PUT_KEY=11, PUT_VALUE=12), mode="sim"),
+    "bug_167": dict(_c(NUM_REPLICAS=2, NUM_PUT_CLIENTS=1, NUM_GET_CLIENTS=1, EXPLORE_FAIL=True, GET_CLIENT_RUN=True, PUT_CLIENT_RUN=True), mode="sim"),
 }
 
 
@@ -144,6 +205,16 @@ def to_coq(v):
     raise ParseError("value kind " + k)
 
 
+def scratch_vars(name):
+    """the TLA+-only temporaries of old translations declared in Bind_<sys>.v: projected away on both sides"""
+    txt = open(os.path.join(vlib.COQ, "C02", "Bind_%s.v" % name)).read()
+    m = re.search(r"Definition %s_scratch : list string :=(.*?)\]\." % re.escape(name), txt, re.S)
+    return set(re.findall(r'"([^"]+)"', m.group(1))) if m else set()
+
+
+DROP = set()      # set by check_graph / check_sim for the system at hand
+
+
 def parse_state(text):
     """'/\\ x = v /\\ y = w' (TLC state print) -> Coq gstate term"""
     text = text.strip()
@@ -154,6 +225,8 @@ def parse_state(text):
         if not p:
             continue
         name, val = p.split("=", 1)
+        if name.strip() in DROP:
+            continue
         pr = P(tokens(val))
         v = pr.value()
         if pr.peek() is not None:
@@ -191,10 +264,11 @@ def run_tlc(sysd, cfg_consts, mode, sim_num=30, sim_depth=60, seed=1):
     else:
         cmd += ["-simulate", "file=sim,num=%d" % sim_num, "-depth", str(sim_depth), "-seed", str(seed)]
     cmd += [mod + ".tla"]
-    rc, out, err = vlib.sh(cmd, cwd=d, timeout=1500)
+    rc, out, err = vlib.sh(cmd, cwd=d, timeout=(240 if mode == "graph" else 900))
+    if rc == 124 or ("Error:" in out and "Deadlock" not in out) or (mode == "graph" and not os.path.exists(os.path.join(d, "graph.dot"))):
+        shutil.rmtree(d, ignore_errors=True)      # never keep a partial (possibly huge) dump
+        return d, "TLC failed%s: %s" % (" (time limit: state space too large for graph mode)" if rc == 124 else "", (out + err)[-800:])
     open(os.path.join(d, "tlc.out"), "w").write(out + err)
-    if "Error:" in out and "Deadlock" not in out or (mode == "graph" and not os.path.exists(os.path.join(d, "graph.dot"))):
-        return d, "TLC failed: " + (out + err)[-800:]
     open(os.path.join(d, "done"), "w").write("ok")
     return d, None
 
@@ -234,8 +308,8 @@ def parse_trace_file(path):
 def _head(info, consts):
     name = info["name"]
     return ("From PGV Require Import C02.Lang C02.Sem C02.Show C02.Walk C02.TLC %s.%s_walkdefs.\nOpen Scope string_scope.\nOpen Scope Z_scope.\n"
-            "Definition W : wsys := mkW (w_dgo (%s_W 0)) (w_dtla (%s_W 0)) [%s] (w_init (%s_W 0)) (w_procs (%s_W 0)).\n"
-            % (G.GEN_NAME, name, name, name, "; ".join('("%s", %s)' % c for c in consts), name, name))
+            "Definition W : wsys := mkW (w_dgo (%s_W 0)) (w_dtla (%s_W 0)) [%s] (filter (fun x => negb (mem (fst x) [%s])) (w_init (%s_W 0))) (w_procs (%s_W 0)).\n"
+            % (G.GEN_NAME, name, name, name, "; ".join('("%s", %s)' % c for c in consts), "; ".join('"%s"' % v for v in sorted(DROP)), name, name))
 
 
 def _ensure(info, log):
@@ -269,6 +343,8 @@ def check_graph(info, sysd, spec, rng, max_states, log):
     e = _ensure(info, log)
     if e:
         return {"error": e}
+    global DROP
+    DROP = scratch_vars(info["name"])
     d, err = run_tlc(sysd, spec["cfg"], "graph")
     if err:
         return {"error": err}
@@ -315,10 +391,12 @@ def check_graph(info, sysd, spec, rng, max_states, log):
     return res
 
 
-def check_sim(info, sysd, spec, n_traces, depth, seed, max_steps, log):
+def check_sim(info, sysd, spec, n_traces, depth, seed, max_steps, log, n_expand=20):
     e = _ensure(info, log)
     if e:
         return {"error": e}
+    global DROP
+    DROP = scratch_vars(info["name"])
     d, err = run_tlc(sysd, spec["cfg"], "sim", n_traces, depth, seed)
     if err:
         return {"error": err}
@@ -339,6 +417,9 @@ def check_sim(info, sysd, spec, n_traces, depth, seed, max_steps, log):
                 if prev is not None:
                     checks.append('check_step W "%s:%d" t%d t%d' % (f, j, prev, k))
                     res["steps_checked"] += 1
+                else:
+                    checks.append('check_init_mem W "%s" t%d' % (f, k))
+                    res["initial_states_checked"] = res.get("initial_states_checked", 0) + 1
                 prev = k
                 k += 1
         outs = ""
@@ -350,6 +431,32 @@ def check_sim(info, sysd, spec, n_traces, depth, seed, max_steps, log):
                 return res
             outs += out
         res["diffs"] = _diffs(outs)
+        # the other inclusion on a sample of the visited states: TLC's COMPLETE successor sets (one-step expansion)
+        allst = []
+        for f in files:
+            allst += parse_trace_file(os.path.join(d, f))
+        uniq = sorted(set(allst))
+        import random as _r
+        sample = _r.Random(seed).sample(uniq, min(n_expand, len(uniq)))
+        res["states_expanded"] = 0
+        if sample:
+            g, e2 = expand_states(sysd, spec["cfg"], sample)
+            if e2:
+                res["error"] = e2
+                return res
+            nodes, init, edges = g
+            ids = sorted(set(init) | {dst for i in init for dst, _ in edges.get(i, [])})
+            names = {i: "x%d" % k for k, i in enumerate(ids)}
+            b2 = [_head(info, spec["consts"])] + ["Definition %s : gstate := %s.\n" % (names[i], parse_state(nodes[i])) for i in ids]
+            checks = ['check_state W "%s" %s [%s]' % (i, names[i], "; ".join(names[j] for j in sorted({dst for dst, _ in edges.get(i, [])}))) for i in init]
+            b2.append("Definition R := Eval vm_compute in filter (fun s => negb (String.eqb s \"\")) [%s].\nPrint R.\n" % ";\n ".join(checks))
+            rc, out, er = G.coq_scratch("C02_tlcx_%s_%d" % (info["name"], os.getpid()), "".join(b2), timeout=2400)
+            if rc != 0:
+                res["error"] = "comparison with TLC (expansion) did not evaluate: " + (out + er)[-600:]
+                return res
+            res["states_expanded"] = len(init)
+            res["successors_compared"] = sum(len(edges.get(i, [])) for i in init)
+            res["diffs"] += _diffs(out)
     except ParseError as pe:
         res["error"] = "TLC output not understood: %s" % pe
     return res
